@@ -117,3 +117,23 @@ Example C20_nonvacuous :
        ([PKey "l"; PIdx 1%N; PKey "x"], RObj 2%N "Q"); ([PKey "l"; PIdx 1%N; PKey "a"], RObj 2%N "Q")] /\
     descend (RList [RObj 1%N "Q"; RObj 2%N "Q"]) [1%N] = Some (RObj 2%N "Q").
 Proof. eexists. eexists. split; [vm_compute; reflexivity|split; reflexivity]. Qed.
+
+(* "its arguments are the coerced arguments of that field, and its info names ... the field's
+   occurrences in the document": for EVERY invocation of a request -- also inside subtrees
+   nulled later and whether or not data itself was nulled -- the occurrences it is told about
+   (c_nodes) are field nodes of the document (of an operation, of a fragment, or below such a
+   node), the field name is the first occurrence's, and the argument map is what input coercion
+   (get_argument_values, characterised by C05_arguments_with_variables) yields from the first
+   occurrence's argument literals against the argument definitions of the schema field
+   (parent type, field name) under the request's coerced variable values. *)
+From GQL Require Import Proofs.ExecArgs.
+Theorem C20_arguments_accurate : forall fuel S D opn inputs root or tor data s,
+  request fuel S D opn inputs root or tor = RDone data s ->
+  exists op vars,
+    get_operation D opn = Some op /\
+    get_variable_values fuel S (o_vars op) inputs = Some (inl vars) /\
+    let E := {| en_S := S; en_D := D; en_vars := vars; en_or := or; en_tor := tor;
+                en_serial := match o_kind op with OpMutation => true | _ => false end |} in
+    Forall (args_ok E) (st_calls s).
+Proof. exact request_args. Qed.
+Print Assumptions C20_arguments_accurate.
